@@ -5,7 +5,7 @@ use syn::{parse_quote, spanned::Spanned, Expr, Field, FieldsNamed, Path, Result}
 use crate::{
     attr::{Attr, ContainerAttr, FieldAttr, Inflection, Optional, StructAttr},
     deps::Dependencies,
-    utils::{raw_name_to_ts_field, to_ts_ident},
+    utils::{raw_name_to_ts_field, to_ts_ident, ts_string_literal},
     DerivedTS,
 };
 
@@ -17,8 +17,9 @@ pub(crate) fn named(attr: &StructAttr, ts_name: Expr, fields: &FieldsNamed) -> R
     let mut dependencies = Dependencies::new(crate_rename.clone());
 
     if let Some(tag) = &attr.tag {
+        let tag = ts_string_literal(tag);
         formatted_fields.push(quote! {
-            format!("{:?}: {:?},", #tag, #ts_name)
+            format!("{}: {},", #tag, #crate_rename::string_literal(#ts_name))
         });
     }
 
